@@ -42,7 +42,7 @@ def bounds(tier):
                        "four-index": "6 + 36 + %s bases" % ("36 of 216" if tier == "quick" else "216"),
                        "quick_subsets": "triples/quadruples: Latin-square subsets (36 each) in the quick tier",
                        "type_patterns": "all 2^n", "entry_points": ["cartesian", "spherical", "mix", "lincomb"]},
-            "part_B": {"type_lattice": "all 2^n patterns for 1-4 shell bases", "transforms": ["square", "wide", "tall"],
+            "part_B": {"type_lattice": "all 2^n patterns for 1-4 shell bases", "transforms": ["square", "wide", "tall", "0/1-valued with several ones per row", "entries up to 40"],
                        "cart_permutations": "all for l<=2; generating set l=3,4",
                        "sph_order_sign": "all 3890 for l<=2; generating set l=3,4"}}
 
@@ -308,6 +308,15 @@ def transform_rewrites(st, tag):
     for nm, rows in (("square", n), ("wide", max(1, n - 2)), ("tall", n + 2)):
         T = np.array([hvec("%s-%s-%d" % (tag, nm, r), n, -1, 1) for r in range(rows)])
         yield ("attach %s T" % nm, st.with_(T=T), T)
+    # value classes of the transformation: all entries 0 or 1 with several ones per row (sums of functions, not a
+    # selection); entries far above 1
+    B = (np.array([hvec("%s-bin-%d" % (tag, r), n, 0, 1) for r in range(max(1, n - 1))]) > 0.55).astype(float)
+    for r in range(B.shape[0]):
+        B[r, r % n] = 1.0
+        B[r, (r + 2) % n] = 1.0 if n > 2 else B[r, (r + 2) % n]
+    yield ("attach 0/1-valued T", st.with_(T=B), B)
+    G = 40.0 * np.array([hvec("%s-big-%d" % (tag, r), n, -1, 1) for r in range(n)])
+    yield ("attach T with entries up to 40", st.with_(T=G), G)
 
 
 def evaluate(cfg):
